@@ -21,6 +21,7 @@ from gramsym.refcheck import RefChecker, Reject
 from gramsym.refs import RefUnknown
 from gramsym.lawlib import ConcreteCtx, empty_model, concrete_truth
 from gramsym.parallel import parallel_explore
+from gramsym.interp import PanicEx
 import tc_common as TC
 import c03
 import c01
@@ -160,7 +161,10 @@ def family_factory(H, quick):
 
         def body(ex):
             it.call_depth = 0
-            obligations(ex, it, root)
+            try:
+                obligations(ex, it, root)
+            except PanicEx as p:
+                ex.check(False, "PANIC %s (%s.rs:%s)" % (p.msg, p.module, p.line), info=lambda m: TC.input_case(ex, m, root))
         return ex, body, None
     return make
 
